@@ -11,6 +11,10 @@ MaxOf(S) == CHOOSE x \in S : \A y \in S : y <= x
 Put(f, k, v) == [x \in (DOMAIN f) \cup {k} |-> IF x = k THEN v ELSE f[x]]
 
 \* returns [why, accepted]
+Win == IF -1 \in DOMAIN sent THEN sent[-1] ELSE 32
+\* the window's verdict on a genuine message with number p that has not been accepted before: above everything accepted so far, or not further below
+\* the highest accepted number than the window reaches (kept one short of the window size: the exact edge is not this rule's business)
+MustAccept(p) == p \notin accepted /\ (accepted = {} \/ p > MaxOf(accepted) \/ MaxOf(accepted) - p < Win)
 OnStep(e) ==
   IF e.handled > 1 THEN [why |-> "C15:request-handed-to-the-application-more-than-once", acc |-> accepted]
   ELSE IF e.kind = "fresh"
@@ -19,10 +23,16 @@ OnStep(e) ==
             IF e.handled = 1 /\ p \in accepted THEN [why |-> "C15:request-with-an-already-accepted-partial-iv-accepted", acc |-> accepted]
             ELSE IF e.handled = 0 /\ (accepted = {} \/ p > MaxOf(accepted))
                  THEN [why |-> "C15:genuine-request-with-a-higher-sequence-number-rejected", acc |-> accepted]
+            ELSE IF e.handled = 0 /\ MustAccept(p)
+                 THEN [why |-> "C15:genuine-request-inside-the-window-rejected-although-never-accepted-before", acc |-> accepted]
             ELSE [why |-> "", acc |-> IF e.handled = 1 THEN accepted \cup {p} ELSE accepted]
   ELSE IF e.kind = "replay"
   THEN IF e.handled = 1 /\ e.n \in accepted THEN [why |-> "C15:replayed-request-accepted-again", acc |-> accepted]
+       \* the captured bytes are genuine: when they were held back in the network this is their first arrival - forgeries in between change nothing
+       ELSE IF e.handled = 0 /\ accepted # {} /\ MustAccept(e.n)
+            THEN [why |-> "C15:delayed-genuine-request-rejected-although-never-accepted-before", acc |-> accepted]
        ELSE [why |-> "", acc |-> IF e.handled = 1 THEN accepted \cup {e.n} ELSE accepted]
+  ELSE IF e.kind = "held" THEN [why |-> "", acc |-> accepted]
   ELSE \* forged
        IF e.handled >= 1 THEN [why |-> "C15:forged-request-accepted", acc |-> accepted]
        ELSE [why |-> "", acc |-> accepted]
@@ -32,7 +42,7 @@ Init == /\ l = 1 /\ rej = << >> /\ cur = -1 /\ skip = TRUE /\ accepted = {} /\ s
 Consume ==
   /\ l <= Len(TraceLog)
   /\ LET e == TraceLog[l] IN
-     CASE e.e = "Reset" -> /\ cur' = e.id /\ skip' = FALSE /\ accepted' = {} /\ sent' = [x \in {} |-> 0] /\ stepPivs' = << >>
+     CASE e.e = "Reset" -> /\ cur' = e.id /\ skip' = FALSE /\ accepted' = {} /\ sent' = [x \in {-1} |-> e.win] /\ stepPivs' = << >>      \* (key -1 carries the replay window size of the execution)
                            /\ nexec' = nexec + 1 /\ lastSaved' = 0 /\ restartFloor' = 0 /\ UNCHANGED <<rej, nsteps>>
        [] e.e = "Piv" /\ ~skip ->
             IF e.piv \in DOMAIN sent /\ sent[e.piv] # e.sig
